@@ -14,12 +14,16 @@ PLAIN = ["README.md", "README.rst", "setup.py"]
 CONFIGS = ["setup.cfg", "pyproject.toml", "bumpver.toml", ".bumpver.toml", "pycalver.toml"]
 ALL = PLAIN + CONFIGS
 
+# prior content of the file `init` appends to: LF, no final newline, CRLF (with and without a final one), lone CR, mixed endings,
+# non-ASCII text, trailing blanks — "leaving prior content of that file intact as a prefix" is about BYTES
 UNRELATED = {
-    "setup.cfg": ["[metadata]\nname = demo\n", "[metadata]\nname = demo", "[bumpversion]\ncurrent_version = 0.1.0\ncommit = True\n", "[flake8]\nmax-line-length = 100\n\n\n"],
-    "pyproject.toml": ['[build-system]\nrequires = ["setuptools>=40"]\n', '[tool.black]\nline-length = 100', '[project]\nname = "demo"\nversion = "0.1.0"\n\n'],
-    "bumpver.toml": ['[other]\nkey = 1\n', '# nothing here yet', 'title = "current_version of nothing"\n'],
-    ".bumpver.toml": ['[other]\nkey = 1\n', '# nothing here yet\n'],
-    "pycalver.toml": ['[other]\nkey = 1\n', 'x = "pycalver"'],
+    "setup.cfg": ["[metadata]\nname = demo\n", "[metadata]\nname = demo", "[bumpversion]\ncurrent_version = 0.1.0\ncommit = True\n", "[flake8]\nmax-line-length = 100\n\n\n",
+                  "[metadata]\r\nname = demo\r\n", "[metadata]\r\nname = d\u00e9mo \u2713\r\ndescription = x", "[metadata]\nname = demo\r\n\n[flake8]\rmax-line-length = 100\r", "[metadata]\nname = demo \t\n \n"],
+    "pyproject.toml": ['[build-system]\nrequires = ["setuptools>=40"]\n', '[tool.black]\nline-length = 100', '[project]\nname = "demo"\nversion = "0.1.0"\n\n',
+                       '[build-system]\r\nrequires = ["setuptools>=40"]\r\n', '[tool.black]\r\nline-length = 100', '[project]\nname = "d\u00e9mo"\r\nversion = "0.1.0"\n'],
+    "bumpver.toml": ['[other]\nkey = 1\n', '# nothing here yet', 'title = "current_version of nothing"\n', '[other]\r\nkey = 1\r\n', '# nothing here yet\r'],
+    ".bumpver.toml": ['[other]\nkey = 1\n', '# nothing here yet\n', '[other]\r\nkey = 1\r\n'],
+    "pycalver.toml": ['[other]\nkey = 1\n', 'x = "pycalver"', '[other]\r\nkey = 1\r\n'],
 }
 OLD_VERSION = "2020.1001-alpha"
 SECTION = {
@@ -190,25 +194,25 @@ def run(chk, driver, tier):
     rng = chk.rng
     worlds = list(all_worlds())
     chk.extra["rule"] = ("worlds: every subset of README.md, README.rst, setup.py, setup.cfg, pyproject.toml, bumpver.toml, .bumpver.toml, pycalver.toml with "
-                         "{empty, unrelated content, existing bumpver section} per config-capable file (2^3 * 4^5 = 8192 worlds; unrelated/section contents in 2-4 "
-                         "variants incl. no trailing newline, a bump2version section, legacy [pycalver]); per world: init --dry, init, show, second init (+ --dry); "
+                         "{empty, unrelated content, existing bumpver section} per config-capable file (2^3 * 4^5 = 8192 worlds; unrelated/section contents in 2-8 "
+                         "variants incl. no trailing newline, CRLF / lone CR / mixed line endings, non-ASCII text, a bump2version section, legacy [pycalver]); per world: init --dry, init, show, second init (+ --dry); "
                          "ops init_pick/init_text/init on the same contents; quick tier: the 256 existence patterns once each + 100 sampled worlds")
     if tier == "thorough":
         chk.exhaustive = True
-        run_worlds(chk, driver, worlds, lambda i: [i % 4, (i // 4 + 1) % 4] if i % 7 == 0 else [i % 4])
+        run_worlds(chk, driver, worlds, lambda i: [i % 8, (i // 8 + 1) % 8] if i % 7 == 0 else [i % 8])
     else:
         # every subset of files at least once (content kinds sampled), plus a random sample of full worlds
         by_subset = {}
         for w in worlds:
             by_subset.setdefault(tuple(st != "absent" for st in w.values()), []).append(w)
         sample = [rng.choice(ws) for ws in by_subset.values()] + rng.sample(worlds, 100)
-        run_worlds(chk, driver, sample, lambda i: [i % 4])
+        run_worlds(chk, driver, sample, lambda i: [i % 8])
     return []
 
 
 def search(chk, driver, tier):
     worlds = list(all_worlds())
-    run_worlds(chk, driver, worlds, lambda i: [i % 4])
+    run_worlds(chk, driver, worlds, lambda i: [i % 8])
 
 
 def replay(payload):
